@@ -25,6 +25,7 @@ META = {
     'assumptions': ['glibc pthread types and constants of this platform', 'pthread_timedjoin_np is a non-POSIX extension: its timeout code is not compared'],
     'technique': 'static analysis: table-driven who-calls-what and argument value-flow rules over LLVM IR of every wrapper, plus compile-time witnesses',
 }
+META['explanation'] += ' A key destructor runs with its slot already cleared and receives the value it held (C16.19).'
 WRAPF = 'myth_wrap_pthread.c'
 EBUSY, ETIMEDOUT, EINVAL, EAGAIN = 16, 110, 22, 11
 
